@@ -336,11 +336,12 @@ func TestVerif_C01_L4Cont(t *testing.T) {
 		wg.Wait()
 		if len(produced.errs) > 0 {
 			cancel()
-			<-feedDone
+			w.env.DBC.NotifyTerminatedChanges(w.env.Ctx, q.user)
 			w.inconclusive("writer failed: %s", strings.Join(produced.errs, "; "))
 		}
 		if err := w.env.WaitCache(); err != nil {
 			cancel()
+			w.env.DBC.NotifyTerminatedChanges(w.env.Ctx, q.user)
 			w.inconclusive("%v", err)
 		}
 		final := w.changes(q, SequenceID{}, 0)
@@ -381,10 +382,13 @@ func TestVerif_C01_L4Cont(t *testing.T) {
 			}
 			time.Sleep(time.Millisecond)
 		}
+		// end the request the way a disconnecting client does: cancel, then wake the waiter
 		cancel()
+		w.env.DBC.NotifyTerminatedChanges(w.env.Ctx, q.user)
 		select {
 		case <-feedDone:
 		case <-time.After(vfWaitBound):
+			w.inconclusive("cancelled continuous feed did not stop within %v", vfWaitBound)
 		}
 		mu.Lock()
 		defer mu.Unlock()
